@@ -5,7 +5,7 @@ Require GenProofs_FrameMeas.
 Require Pauli Sem Uniform RefFold Loops.
 Require Import Stab Act Spec SpecProofs GF2 Gen_GateTable Gen_Frame GenProofs_Frame.
 Require GenProofs_TabMeas.
-Require Run FrameRun.
+Require Run FrameRun FrameComplete Collapse Refine.
 
 (* (1) Tie G: every unitary FrameSimulator routine (translated from frame_simulator.inl) equals the documented gate action
        with the sign dropped, on frames of any size and any target list; every fixed unitary of the table is dispatched
@@ -119,3 +119,28 @@ Theorem C02_frame_step :
              FrameRun.eqs n S' (Sem.shift (fst (FrameRun.fstep F o r)) Sg') /\ Refine.wf n (fst (FrameRun.fstep F o r)).
 Proof. exact FrameRun.frame_step. Qed.
 Print Assumptions C02_framed_copy_of_a_legal_run_is_legal. Print Assumptions C02_frame_step.
+
+(* The frame sampler reports EXACTLY the legal records.  Reference: any run of the inverse-tableau simulator from a state it tracks
+   (good T, Inv T Sg); sampler: initial frame g in the stabilizer group of the initial state, result k = r_k xor [F_k, M_k], frame
+   multiplied by M_k after the measurement when the randomisation bit z_k is set.  For every record la on the same operations:
+   la is reported for some (g, zs)  <->  la is a run the semantics allows.  Circuits of any length, any number of qubits. *)
+Theorem C02_frame_sampler_reports_exactly_the_legal_records :
+  forall (n : nat) (l la : list (Run.op * option bool)) (s s' : (Pauli.pauli -> Pauli.pauli) * (Pauli.pauli -> Pauli.pauli)) (Sg : Sem.state),
+  Forall (fun x => FrameRun.ok_op n (fst x)) l -> Run.good n (fst s) (snd s) -> Run.Inv n (fst s) Sg -> Run.sim_run n s l s' ->
+  ((exists g zs, Refine.wf n g /\ Sg g /\ snd (FrameComplete.frunz g zs l) = la) <->
+   (map fst la = map fst l /\ exists S', Run.sem_run Sg la S')).
+Proof. exact FrameComplete.frame_exact. Qed.
+Theorem C02_frame_sampler_from_the_zero_state :
+  forall (n : nat) (l la : list (Run.op * option bool)) (s' : (Pauli.pauli -> Pauli.pauli) * (Pauli.pauli -> Pauli.pauli)),
+  Forall (fun x => FrameRun.ok_op n (fst x)) l -> Run.sim_run n (fun P => P, fun P => P) l s' ->
+  ((exists g zs, Refine.wf n g /\ Collapse.Zplus g /\ snd (FrameComplete.frunz g zs l) = la) <->
+   (map fst la = map fst l /\ exists S', Run.sem_run (fun P => Collapse.Zplus P) la S')).
+Proof. exact FrameComplete.frame_exact_zero_state. Qed.
+(* non-vacuity: a reference run exists for every list of well-formed operations and every coin policy *)
+Theorem C02_reference_run_exists :
+  forall (n : nat) (c : bool) (ops : list Run.op) (s : (Pauli.pauli -> Pauli.pauli) * (Pauli.pauli -> Pauli.pauli)),
+  Forall (FrameRun.ok_op n) ops -> Run.good n (fst s) (snd s) ->
+  exists l s', map fst l = ops /\ Forall (fun x => FrameRun.ok_op n (fst x)) l /\ Run.sim_run n s l s'.
+Proof. exact FrameComplete.sim_run_exists. Qed.
+Print Assumptions C02_frame_sampler_reports_exactly_the_legal_records. Print Assumptions C02_frame_sampler_from_the_zero_state.
+Print Assumptions C02_reference_run_exists.
